@@ -24,11 +24,15 @@ func vSDAddr(job string, h uint64) *discovery.SDTargets {
 // VExploreRun (C20, bounded thread model): the real Explore.Run with W probe workers, the retry
 // goroutines it starts, and a driver goroutine that looks targets up and applies one concurrent
 // discovery update or reload, under every schedule (switches at synchronisation operations,
-// preemption bound P). F bounds the number of failing probes.
-func VExploreRun(K, W, F, P int) {
+// preemption bound P). F bounds the number of failing probes. Q > 0 shrinks the work queue to Q
+// slots (the real one has 10000), so that lookups and retries meet a full queue.
+func VExploreRun(K, W, F, P, Q int) {
 	zzv.Threads(P)
 	job := &scrape.JobInfo{Config: &config.ScrapeConfig{JobName: "job1"}}
 	e := New(scrape.VManagerWith("job1", job), prometheus.NewRegistry(), vLogger())
+	if Q > 0 {
+		e.needExplore = make(chan *exploringTarget, Q)
+	}
 	inflight := map[string]int{}
 	done := map[string]bool{}
 	lastFail := map[string]int64{}
